@@ -106,6 +106,7 @@ type vcCtx struct {
 	assumed map[string]bool // trusted/assumed contracts used
 	nframe int
 	noOverflow bool
+	wrapSigned bool
 	names map[string]int
 }
 
@@ -142,6 +143,7 @@ type frame struct {
 	depth  int
 	prefix string
 	origin map[ssa.Value]*Ptr
+	originRaw map[ssa.Value]*Term
 	rets   []retInfo
 	fc     *FuncContract // contract of fn when verifying it
 	loops  []*loopInfo
@@ -1091,6 +1093,12 @@ func (f *frame) enterLoop(h *ssa.BasicBlock, li *loopInfo, cs []contrib) error {
 		r := Const(fmt.Sprintf("bv!%d", f.e.nextBV()), SRef)
 		for _, rv := range mi.refs {
 			if ins, isIns := rv.(ssa.Instruction); isIns && li.Blocks[ins.Block()] {
+				if _, isAlloc := rv.(*ssa.Alloc); isAlloc {
+					// written at an object allocated inside the loop: it did not exist before the loop
+					f.e.Defs.noteFunc("preexisting", []*Sort{SRef}, SBool)
+					excl = append(excl, App("preexisting", SBool, r))
+					continue
+				}
 				okRefs = false
 				break
 			}
